@@ -78,11 +78,13 @@ PCall(id, k, a) ==
   /\ UNCHANGED <<subj, mode, cur>>
 
 PRet(id, res) ==
-  LET keep == IF res = "ok" THEN {c \in poss : id \in c.ap} ELSE poss IN
-  /\ id \in DOMAIN pend
-  /\ pend' = Drop(pend, id)
-  /\ poss' = {[st |-> c.st, ap |-> c.ap \ {id}] : c \in keep}
-  /\ UNCHANGED <<subj, mode, cur, quiet, bad>>
+  IF id \notin DOMAIN pend
+  THEN /\ bad' = First(<< <<TRUE, "protocol-ret-without-call">> >>)
+       /\ UNCHANGED <<subj, mode, pend, poss, cur, quiet>>
+  ELSE LET keep == IF res = "ok" THEN {c \in poss : id \in c.ap} ELSE poss IN
+       /\ pend' = Drop(pend, id)
+       /\ poss' = {[st |-> c.st, ap |-> c.ap \ {id}] : c \in keep}
+       /\ UNCHANGED <<subj, mode, cur, quiet, bad>>
 
 PStored(set) ==
   /\ cur' = set
